@@ -129,13 +129,15 @@ Definition in_domain (o : opn) (args : list val) : bool :=
   | ODec => all_fix args && match fixes args with [a] => in64 (a - 1) | _ => false end
   | OAbs => all_fix args && match fixes args with [a] => in64 (Z.abs a) | _ => false end
   | ORound m => all_fix args && match fixes args with
-                                | [n; d] => negb (d =? 0) && in64 (Z.quot n d) &&
+                                | [n; d] => (d =? 0) ||        (* a zero divisor: division-by-zero, as S demands *)
+                                            in64 (Z.quot n d) &&
                                             match m with
                                             | Floor => (0 <? d) || (Z.rem n d =? 0)
                                             | Round => in64 (Z.abs n) && in64 (Z.abs d) && in64 (2 * Z.rem (Z.abs n) (Z.abs d))
                                             | _ => true end
                                 | _ => false end
-  | OMod | ORem => all_fix args && match fixes args with [n; d] => negb (d =? 0) | _ => false end
+  | OMod => all_fix args && match fixes args with [n; d] => negb (d =? 0) | _ => false end   (* known: arithmetic-error *)
+  | ORem => all_fix args && match fixes args with [n; d] => true | _ => false end
   | OCmp _ => (1 <=? Z.of_nat (length args)) && exact_pairs args
   (* bitwise operations: integers only; once a bignum takes part the result is a bignum object, which is
      the canonical form only when the exact result does not fit in 64 bits *)
